@@ -28,6 +28,9 @@ VERIF = os.path.dirname(os.path.dirname(os.path.abspath(__file__)))
 class Renamer(object):
     def __init__(self):
         self.ids = {}
+        self.nids = 0
+        self.born = {}
+        self.disp = 0
         self.rids = {}
         self.cis = {}
         self.tids = {}
@@ -36,8 +39,15 @@ class Renamer(object):
         if i is None:
             return None
         if i not in self.ids:
-            self.ids[i] = "#%d" % len(self.ids)
+            self.ids[i] = "#%d" % self.nids
+            self.born[i] = self.disp
+            self.nids += 1
         return self.ids[i]
+
+    def release(self, i):
+        """The request that held identifier i is finished: the next use of the same
+        number is another identifier as far as behaviour is concerned."""
+        self.ids.pop(i, None)
 
     def rid(self, r):
         if r not in self.rids:
@@ -93,12 +103,23 @@ def obs_log(w, addr=None, rename_ids=False, with_time=True, from_seq=0, skip_rid
     cur_ci = None
     skip_disp = False
     rid_kind = dict((r, q.get("m")) for r, q in w.reqs.items())
+    rid_id = dict((e[3], e[5]) for e in w.events if e[0] == "R" and e[4] == "deferred" and isinstance(e[5], int)
+                  and not isinstance(e[5], bool))
+    id_owner = {}
     for e in w.events:
         k = e[0]
         seq = e[1]
         if k == "D":
             cur_ci = e[5]
             skip_disp = False
+            rn.disp += 1
+        if rename_ids and ((k == "D" and e[3] == "api") or k == "A"):
+            # the number this call is about to be given is a new identifier, whatever request
+            # carried the same number before (it is finished, or died with its session)
+            info_ = e[6] if k == "D" else e[4]
+            if isinstance(info_, dict) and info_.get("rid") in rid_id:
+                rn.release(rid_id[info_["rid"]])
+                id_owner[rid_id[info_["rid"]]] = info_["rid"]
             if e[3] == "api" and isinstance(e[6], dict) and e[6].get("rid") in skip_rids:
                 skip_disp = True
         if seq <= from_seq or skip_disp:
@@ -148,6 +169,8 @@ def obs_log(w, addr=None, rename_ids=False, with_time=True, from_seq=0, skip_rid
             if not e[4] and isinstance(val, tuple) and len(val) == 3 and val[1] is not None:
                 val = (val[0], rn.ci(val[1]), val[2])
             out.append(("F", rn.rid(e[3]), e[4], val) + t)
+            if rename_ids and e[3] in rid_id and id_owner.get(rid_id[e[3]]) == e[3]:
+                rn.release(rid_id[e[3]])
         elif k == "R":
             rq = w.reqs.get(e[3])
             if rq is None or (addr is not None and rq["addr"] != addr) or e[3] in skip_rids:
@@ -529,6 +552,28 @@ def _run_timed(ns, cfg, hist, props=None):
         op = st["op"]
         if op == "time.set":
             continue
+        if op == "sim.set_id_near":
+            # the shared counter as it stands a full cycle later: right before an identifier
+            # that is still in use at some address (held back in a queue, or in a window)
+            if L is None:
+                continue
+            pend = []
+            for a_ in sorted(L.sess):
+                for r in L.sess[a_].reqs:
+                    if r.pending and isinstance(r.msgId, int) and (st.get("addr") in (None, a_)):
+                        pend.append((0 if (st.get("held") and not r.tx) else 1, a_, r.rid, r.msgId))
+            if not pend:
+                w.note("no identifier in use to place the counter at")
+                continue
+            pend.sort()
+            if st.get("held"):
+                best = [x for x in pend if x[0] == pend[0][0]]
+            else:
+                best = pend
+            tgt = best[st.get("pick", 0) % len(best)][3]
+            w.run_step({"op": "sim.set_id", "value": (tgt - 1 - st.get("off", 1)) % 65535 + 1})
+            w.count("id_placed_at_in_use" + ("_held_back" if best[0][0] == 0 and st.get("held") else ""))
+            continue
         if op == "time.fire1":
             addr = st["addr"]
             own = [dc for dc in w.reactor.due_order()
@@ -603,6 +648,16 @@ def c19_chunk(args):
                 else:
                     merged.append(HB[ib])
                     ib += 1
+            absolute = any(st_.get("op") == "brk.ack" and st_.get("mode") in ("again", "foreign") for (_t, st_) in merged)
+            if rng.random() < 0.5 and not absolute:
+                # (ids are renamed in the comparison, so the joint run may move the counter - unless
+                # a step names an identifier by its number: a repeated acknowledgement of a finished
+                # request legitimately acknowledges whoever holds that number now)
+                for _ in range(rng.choice([1, 1, 2])):
+                    k_ = rng.randrange(1, len(merged) + 1)
+                    merged.insert(k_, (merged[k_ - 1][0], {"op": "sim.set_id_near", "addr": rng.choice([None, "A", "B", "B"]),
+                                                           "held": rng.random() < 0.6, "pick": rng.randrange(8),
+                                                           "off": rng.choice([1, 1, 2])}))
             wj, Lj = _run_timed(ns, cfg, merged, ["C17"])
             out["interleavings"] += 1
             out["steps"] += len(merged)
